@@ -48,6 +48,19 @@ CLAIMED = {
             'pyproj.Geod by assumed contract (argument order lon,lat; d>=0; symmetry; fwd(p,az12,d)=q): geodesic truth itself is '
             'not proved; floats as reals; bisect_left by its counting definition',
             'contract-based deductive verification: AST->z3 VCs of the real source, sidecar contracts', 'DESIGN 2 C15'),
+    'C17': ('proof',
+            'Builder.fly, _iterate_mass, _fly_iteration, __getattr__/__setattr__ executed symbolically with every callee '
+            '(context construction, starting-mass calculation, each flight phase) allowed to raise its rejection reason at '
+            'every call: exceptional postcondition "the surfaced exception is the callee\'s", frame "constructor-time fields '
+            'unchanged and context removed on every exit". History independence is reduced to frame + write-before-read: '
+            'whatever a flight leaves on the builder or its classes is poisoned for a second flight, which must never read it. '
+            'The mass-iteration clause is proved by a loop invariant (unbounded iteration count) whose variable roles are '
+            'discovered from values, not names.',
+            'callee contracts of LegacyContext.__init__, calc_starting_mass and the phase methods (their own properties are '
+            'C02/C06/C15/C16); Trajectory as an opaque record; history unit explores two consecutive flights with the '
+            'iteration loop unrolled to 3; termination not proved',
+            'contract-based deductive verification: AST->z3 VCs of the real source, loop invariant, frame/poison analysis',
+            'DESIGN 2 C17'),
 }
 REASONS_TODO = 'check not built yet (work in progress; see DESIGN.md section 2)'
 
